@@ -74,3 +74,234 @@ pub fn widget_rows(
         variable.compute_quotient_i(0, &ch[3], a, a_w, b, b_w, c, d, d_w),
     ]
 }
+
+// ---------------------------------------------------------------------------
+// FFT / polynomial / utility kernels
+// ---------------------------------------------------------------------------
+
+use dusk_bls12_381::{G1Affine, G2Affine};
+use merlin::Transcript;
+
+use crate::commitment_scheme::{AggregateProof, CommitKey, Commitment, OpeningKey, PublicParameters};
+use crate::error::Error;
+
+fn dom(n: usize) -> EvaluationDomain {
+    EvaluationDomain::new(n).expect("evaluation domain")
+}
+
+fn poly(c: &[BlsScalar]) -> Polynomial {
+    Polynomial::from_coefficients_vec(c.to_vec())
+}
+
+/// `(size, group_gen, group_gen_inv, size_inv, generator)` of the domain for
+/// `n` coefficients.
+pub fn domain_params(n: usize) -> (usize, BlsScalar, BlsScalar, BlsScalar, BlsScalar) {
+    let d = dom(n);
+    (d.size(), d.group_gen, d.group_gen_inv, d.size_inv, d.generator_inv.invert().unwrap_or_default())
+}
+
+pub fn fft(n: usize, v: &[BlsScalar]) -> Vec<BlsScalar> {
+    dom(n).fft(v)
+}
+pub fn ifft(n: usize, v: &[BlsScalar]) -> Vec<BlsScalar> {
+    dom(n).ifft(v)
+}
+pub fn coset_fft(n: usize, v: &[BlsScalar]) -> Vec<BlsScalar> {
+    dom(n).coset_fft(v)
+}
+pub fn coset_ifft(n: usize, v: &[BlsScalar]) -> Vec<BlsScalar> {
+    dom(n).coset_ifft(v)
+}
+pub fn lagrange_coefficients(n: usize, tau: BlsScalar) -> Vec<BlsScalar> {
+    dom(n).evaluate_all_lagrange_coefficients(tau)
+}
+pub fn vanishing_eval(n: usize, tau: &BlsScalar) -> BlsScalar {
+    dom(n).evaluate_vanishing_polynomial(tau)
+}
+pub fn vanishing_over_coset(n8: usize, degree: u64) -> Vec<BlsScalar> {
+    dom(n8).compute_vanishing_poly_over_coset(degree).evals
+}
+pub fn matches_linear_over_coset(n8: usize, v: &[BlsScalar]) -> bool {
+    dom(n8).matches_linear_poly_over_coset(v)
+}
+pub fn matches_vanishing_over_coset(n8: usize, degree: u64, v: &[BlsScalar]) -> bool {
+    dom(n8).matches_vanishing_poly_over_coset(degree, v)
+}
+pub fn barycentric_eval(n: usize, evals: &[BlsScalar], point: &BlsScalar) -> BlsScalar {
+    crate::proof_system::proof::alloc::compute_barycentric_eval(evals, point, &dom(n))
+}
+pub fn batch_inversion(v: &mut [BlsScalar]) {
+    crate::util::batch_inversion(v)
+}
+pub fn powers_of(x: &BlsScalar, d: usize) -> Vec<BlsScalar> {
+    crate::util::powers_of(x, d)
+}
+
+pub fn poly_normalize(a: &[BlsScalar]) -> Vec<BlsScalar> {
+    poly(a).to_vec()
+}
+pub fn poly_add(a: &[BlsScalar], b: &[BlsScalar]) -> Vec<BlsScalar> {
+    (&poly(a) + &poly(b)).to_vec()
+}
+pub fn poly_sub(a: &[BlsScalar], b: &[BlsScalar]) -> Vec<BlsScalar> {
+    (&poly(a) - &poly(b)).to_vec()
+}
+pub fn poly_mul(a: &[BlsScalar], b: &[BlsScalar]) -> Vec<BlsScalar> {
+    (&poly(a) * &poly(b)).to_vec()
+}
+pub fn poly_scale(a: &[BlsScalar], s: &BlsScalar) -> Vec<BlsScalar> {
+    (&poly(a) * s).to_vec()
+}
+pub fn poly_evaluate(a: &[BlsScalar], x: &BlsScalar) -> BlsScalar {
+    poly(a).evaluate(x)
+}
+pub fn poly_ruffini(a: &[BlsScalar], z: BlsScalar) -> Vec<BlsScalar> {
+    poly(a).ruffini(z).to_vec()
+}
+pub fn poly_degree(a: &[BlsScalar]) -> usize {
+    poly(a).degree()
+}
+
+// ---------------------------------------------------------------------------
+// KZG
+// ---------------------------------------------------------------------------
+
+/// `(powers_of_g, g, h, x_h)`
+pub fn pp_parts(pp: &PublicParameters) -> (Vec<G1Affine>, G1Affine, G2Affine, G2Affine) {
+    (
+        pp.commit_key.powers_of_g.clone(),
+        pp.opening_key.g,
+        pp.opening_key.h,
+        pp.opening_key.x_h,
+    )
+}
+pub fn commit_key_powers(ck: &CommitKey) -> Vec<G1Affine> {
+    ck.powers_of_g.clone()
+}
+pub fn commit_key_from_powers(p: Vec<G1Affine>) -> CommitKey {
+    CommitKey { powers_of_g: p }
+}
+pub fn opening_key_parts(ok: &OpeningKey) -> (G1Affine, G2Affine, G2Affine) {
+    (ok.g, ok.h, ok.x_h)
+}
+pub fn opening_key_new(g: G1Affine, h: G2Affine, x_h: G2Affine) -> Result<OpeningKey, Error> {
+    OpeningKey::try_new(g, h, x_h).map_err(Error::from)
+}
+pub fn kzg_commit(ck: &CommitKey, coeffs: &[BlsScalar]) -> Result<G1Affine, Error> {
+    ck.commit(&poly(coeffs)).map(|c| c.0)
+}
+pub fn kzg_aggregate_witness(polys: &[Vec<BlsScalar>], point: &BlsScalar, v: &BlsScalar) -> Vec<BlsScalar> {
+    let ps: Vec<Polynomial> = polys.iter().map(|p| poly(p)).collect();
+    let refs: Vec<&Polynomial> = ps.iter().collect();
+    CommitKey::compute_aggregate_witness(&refs, point, v).to_vec()
+}
+/// `(witness, evaluation, commitment)` of the flattened aggregate proof.
+pub fn kzg_flatten(witness: G1Affine, parts: &[(BlsScalar, G1Affine)], v: &BlsScalar) -> (G1Affine, BlsScalar, G1Affine) {
+    let mut agg = AggregateProof::with_witness(Commitment(witness));
+    for (e, c) in parts {
+        agg.add_part((*e, Commitment(*c)));
+    }
+    let p = agg.flatten(v);
+    (p.commitment_to_witness.0, p.evaluated_point, p.commitment_to_polynomial.0)
+}
+/// proofs: `(witness, evaluation, commitment)`
+pub fn kzg_batch_check(ok: &OpeningKey, points: &[BlsScalar], proofs: &[(G1Affine, BlsScalar, G1Affine)], label: &'static [u8]) -> Result<(), Error> {
+    // the single-proof type is private to the KZG module: obtain values of it by
+    // flattening one-part aggregates with challenge 1 (identity combination)
+    let one = BlsScalar::one();
+    let ps: Vec<_> = proofs
+        .iter()
+        .map(|(w, e, c)| {
+            let mut agg = AggregateProof::with_witness(Commitment(*w));
+            agg.add_part((*e, Commitment(*c)));
+            agg.flatten(&one)
+        })
+        .collect();
+    let mut t = Transcript::new(label);
+    ok.batch_check(points, &ps, &mut t)
+}
+
+// ---------------------------------------------------------------------------
+// Prover kernels
+// ---------------------------------------------------------------------------
+
+use crate::proof_system::ProverKey;
+
+/// Prover key from plain data: 15 `(coefficients, 8n coset evaluations)` pairs in
+/// the order `q_m q_l q_r q_o q_f q_c q_arith q_logic q_range q_fixed q_var
+/// s1 s2 s3 s4`, the linear 8n evaluations and the vanishing 8n evaluations.
+pub struct VProverKey(pub(crate) ProverKey);
+
+pub fn prover_key_from_parts(
+    n: usize,
+    parts: &[(Vec<BlsScalar>, Vec<BlsScalar>)],
+    linear_evals: Vec<BlsScalar>,
+    v_h_coset_8n: Vec<BlsScalar>,
+) -> VProverKey {
+    let d8 = dom(8 * n);
+    let pe2 = |i: usize| {
+        (
+            poly(&parts[i].0),
+            Evaluations::from_vec_and_domain(parts[i].1.clone(), d8),
+        )
+    };
+    let arithmetic = widget::arithmetic::ProverKey {
+        q_m: pe2(0),
+        q_l: pe2(1),
+        q_r: pe2(2),
+        q_o: pe2(3),
+        q_f: pe2(4),
+        q_c: pe2(5),
+        q_arith: pe2(6),
+    };
+    let logic = widget::logic::ProverKey { q_logic: pe2(7), q_c: pe2(5) };
+    let range = widget::range::ProverKey { q_range: pe2(8) };
+    let fixed_base = widget::ecc::scalar_mul::fixed_base::ProverKey {
+        q_l: pe2(1),
+        q_r: pe2(2),
+        q_c: pe2(5),
+        q_fixed_group_add: pe2(9),
+    };
+    let variable_base = widget::ecc::curve_addition::ProverKey { q_variable_group_add: pe2(10) };
+    let permutation = widget::permutation::ProverKey {
+        s_sigma_1: pe2(11),
+        s_sigma_2: pe2(12),
+        s_sigma_3: pe2(13),
+        s_sigma_4: pe2(14),
+        linear_evaluations: Evaluations::from_vec_and_domain(linear_evals, d8),
+    };
+    VProverKey(ProverKey {
+        n,
+        arithmetic,
+        logic,
+        range,
+        fixed_base,
+        variable_base,
+        permutation,
+        v_h_coset_8n: Evaluations::from_vec_and_domain(v_h_coset_8n, d8),
+    })
+}
+
+/// `quotient_poly::compute`; `wires = [z, a, b, c, d]` coefficient vectors,
+/// `ch = [alpha, beta, gamma, range, logic, fixed, var]`.
+pub fn quotient_compute(
+    n: usize,
+    pk: &VProverKey,
+    wires: &[Vec<BlsScalar>; 5],
+    pi_poly: &[BlsScalar],
+    vanishing_coset_inverses: &[BlsScalar; 8],
+    ch: &[BlsScalar; 7],
+) -> Result<Vec<BlsScalar>, Error> {
+    let d8 = dom(8 * n);
+    let p: Vec<Polynomial> = wires.iter().map(|w| poly(w)).collect();
+    crate::proof_system::quotient_poly::compute(
+        &d8,
+        &pk.0,
+        &p[0],
+        (&p[1], &p[2], &p[3], &p[4]),
+        &poly(pi_poly),
+        vanishing_coset_inverses,
+        &(ch[0], ch[1], ch[2], ch[3], ch[4], ch[5], ch[6]),
+    )
+    .map(|q| q.to_vec())
+}
